@@ -1,0 +1,32 @@
+//go:build verif
+
+package tree
+
+import (
+	"io"
+	"strings"
+)
+
+// VerifRearrange builds a command statement from raw elements (a non-empty string is a command text element,
+// an empty string stands for an expression element), rearranges it and returns it wrapped in a statement.
+func VerifRearrange(elements []string) *Statement {
+	statement := &CommandStatement{}
+	for _, element := range elements {
+		if element == "" {
+			statement.Elements = append(statement.Elements, &CommandStatementElement{})
+		} else {
+			statement.Elements = append(statement.Elements, &CommandStatementElement{text: element})
+		}
+	}
+	statement.rearrange()
+	return &Statement{CommandStatement: statement}
+}
+
+// VerifFromStrings is FromReaders on strings.
+func VerifFromStrings(inputs ...string) (*Dialogue, error) {
+	readers := make([]io.Reader, 0, len(inputs))
+	for _, input := range inputs {
+		readers = append(readers, strings.NewReader(input))
+	}
+	return FromReaders(readers...)
+}
